@@ -52,7 +52,7 @@ fn run_case(line: &str) -> String {
     let (head, ops) = line.split_once('|').unwrap();
     let mut hsx = head.split_whitespace();
     let mask = mask_of(hsx.next().unwrap().parse().unwrap());
-    let timeout = match hsx.next().unwrap() { "-" => None, t => Some(if real { Duration::from_millis(t.parse().unwrap()) } else { Duration::from_nanos(t.parse().unwrap()) }) };
+    let timeout = match hsx.next().unwrap() { "-" => None, "M" => Some(Duration::MAX), t => Some(if real { Duration::from_millis(t.parse().unwrap()) } else { Duration::from_nanos(t.parse().unwrap()) }) };
     let mode: u64 = hsx.next().map(|m| m.parse().unwrap()).unwrap_or(0);
     let (clock, mock) = quanta::Clock::mock();
     let mut builder = PrometheusBuilder::new().idle_timeout(mask, timeout);
@@ -101,10 +101,11 @@ fn main() {
     if lines.iter().all(|l| l.starts_with("REAL ")) {
         // real-clock histories sleep: run them side by side (each has its own recorder)
         let hs: Vec<_> = lines.into_iter().map(|l| std::thread::spawn(move || run_case(&l))).collect();
-        for h in hs { writeln!(w, "{}", h.join().unwrap()).unwrap(); }
+        for h in hs { writeln!(w, "{}", h.join().unwrap_or_else(|_| "panic".to_string())).unwrap(); }
         return;
     }
     for line in lines {
-        writeln!(w, "{}", run_case(&line)).unwrap();
+        let r = std::panic::catch_unwind(|| run_case(&line)).unwrap_or_else(|_| "panic".to_string());
+        writeln!(w, "{}", r).unwrap();
     }
 }
